@@ -686,6 +686,10 @@ def search(ctx, np, util, config, sf_actual, icases=()):
             if kind in ("wav", "flac", "aiff", "sph"):
                 t = r.choice([0, 1, 2, 7, 50, 400]) if kind == "wav" else r.choice([1, 2, 7, 50, 400])
                 ch = r.choice([1, 1, 2, 3, 6])
+                if kind == "sph" and r.random() < 0.4:
+                    # data sections longer than the reader's 16 KiB block, with frame sizes that do not divide it
+                    t, ch = r.choice([2731, 3000, 5500, 9000]), r.choice([1, 3, 5, 6, 7])
+                    ctx.count("roundtrip:sph>16KiB")
                 dt = r.choice(["<i2", "<i4"]) if kind in ("wav", "sph") else "<i2"
                 a = rnd_for(dt, [t, ch] if ch > 1 else [t], cast)
                 detail.update(frames=t, channels=ch, sample_dtype=dt, data=a.ravel()[:12].tolist())
